@@ -761,10 +761,56 @@ def run_value_history(cases, res, count=True):
     return bad
 
 
+def other_value_ops(rng, n):
+    """the other value operations of the C18 streams as thunks on fresh receivers: str, from_string, hash, ==, fit_to_screen,
+    to_xml_attribute / from_xml_attribute -> [(label, input, thunk returning a comparable snapshot)]"""
+    def snap_(r):
+        return r if isinstance(r, Err) else geom.value_snap(r.v)
+    ops = []
+    for _ in range(n):
+        k = rng.randrange(7)
+        x = geom.rand_size(rng, wild=False)
+        if k == 0:
+            ops.append(("str", x, lambda x=x: str(geom.mk_size(x))))
+        elif k == 1:
+            st = str(geom.mk_size(x))
+            ops.append(("from_string", st, lambda st=st: snap_(impl.call(Size.from_string, st))))
+        elif k == 2:
+            ops.append(("hash", x, lambda x=x: hash(geom.mk_size(x))))
+        elif k == 3:
+            l = geom.rand_layout(rng, units=(2,), wild=False)
+            ops.append(("fit_to_screen", l, lambda l=l: snap_(impl.call(lambda: geom.mk_layout(l).fit_to_screen()))))
+        elif k == 4:
+            pd = tuple(geom.rand_size(rng, wild=False) for _ in range(4))
+            ops.append(("padding-attribute", pd, lambda pd=pd: snap_(impl.call(
+                lambda: Padding.from_xml_attribute(geom.mk_padding(pd).to_xml_attribute())))))
+        elif k == 5:
+            l = geom.rand_layout(rng, wild=False)
+            l2 = geom.rand_layout(rng, wild=False) if rng.random() < 0.5 else l
+            ops.append(("eq+hash", (l, l2), lambda l=l, l2=l2: (bool(geom.mk_layout(l) == geom.mk_layout(l2)),
+                                                               hash(geom.mk_layout(l)), hash(geom.mk_layout(l2)))))
+        else:
+            y = geom.rand_size(rng, wild=False)
+            ops.append(("point-attribute", (x, y), lambda x=x, y=y: geom.mk_point((x, y)).to_xml_attribute()))
+    return ops
+
+
 def stream_value_history(ctx, res):
     """a value operation depends only on the receiver and the reference, not on the calls made before it"""
     cases = value_history_cases(ctx.rng, ctx.n(1500, 30000))
+    ops = other_value_ops(ctx.rng, ctx.n(1500, 30000))
+    first = [f() for _, _, f in ops]
     bad = run_value_history(cases, res)
+    nbad = 0
+    for (label, inp, f), r1 in zip(reversed(ops), reversed(first)):
+        res["evaluations"] += 2
+        r2 = f()
+        if r1 != r2 and nbad < 2:
+            nbad += 1
+            bad.append({"kind": "result-depends-on-call-history", "replay": "none", "input": [label, repr(inp)],
+                        "impl_obs": repr((r1, r2))[:300],
+                        "what": f"{label} of {inp!r} gave {r1!r} and, on an equal receiver after other calls, {r2!r}"})
+    res["distribution"]["value_history_other_operations_repeated(str, from_string, hash, ==, fit_to_screen, attributes)"] = len(ops)
     seen = set()
     for b in bad:
         if b["kind"] not in seen or len(seen) < 3:
